@@ -65,8 +65,9 @@ impl<F: RichField + Extendable<D>, const D: usize> RandomAccessGate<F, D> {
             config.num_wires / (2 + vec_size + bits),
         );
 
-        // Any leftover wires can be used for constants.
-        let max_extra_constants = config.num_routed_wires - (2 + vec_size) * max_copies;
+        // Any leftover wires can be used for constants, as long as the bit wires still fit.
+        let max_extra_constants = (config.num_routed_wires - (2 + vec_size) * max_copies)
+            .min(config.num_wires - (2 + vec_size + bits) * max_copies);
 
         Self::new(
             max_copies,
